@@ -116,10 +116,11 @@ def _bool_clauses(vn):
 def _enum_variant():
     req, ens, may, pkt, returns = _delegate(_NUM, 'integer')
     return {'integer': {'params': {'self': ('rec', 'EnumeratedParameterType'), 'packet': pkt},
+                        'select': "cls_is(self.encoding, 'IntegerDataEncoding')",
                         'requires': [("cls_is(self.encoding, 'IntegerDataEncoding')", ['__proof__'])] + req,
                         'ensures': _enum_clauses('integer'),
                         'may_raise': dict(may, ValueError=('True', ['__proof__'])),
-                        'returns': ('pval', ['StrParameter'])}}
+                        'returns': ('pval', [('StrParameter', 'int')])}}
 
 
 def _bool_variants():
@@ -127,8 +128,11 @@ def _bool_variants():
     for vn, (tgt, cv, ecls) in _VARIANT_SOURCES.items():
         req, ens, may, pkt, returns = _delegate(tgt, cv)
         out[vn] = {'params': {'self': ('rec', 'BooleanParameterType'), 'packet': pkt},
+                   'select': f"cls_is(self.encoding, '{ecls}')",
                    'requires': [(f"cls_is(self.encoding, '{ecls}')", ['__proof__'])] + req,
-                   'ensures': _bool_clauses(vn), 'may_raise': may, 'returns': ('pval', ['BoolParameter'])}
+                   'ensures': _bool_clauses(vn), 'may_raise': may,
+                   'returns': ('pval', [('BoolParameter', {'integer': 'int', 'float': 'real', 'string': 'bytes',
+                                                           'binary': 'bytes'}[vn])])}
     return out
 
 
